@@ -113,6 +113,10 @@ func famC04(rn *Runner) {
 		rn.scalar(d, env, Path{}, bin("+", v("s"), num("0")), "implicit-conversion", "operand conversion", nt)
 		rn.scalar(d, env, Path{}, call("boolean", v("s")), "string-to-boolean", "string -> boolean", nt)
 		rn.scalar(d, env, Path{}, bin("<", v("s"), num("5")), "implicit-conversion", "operand conversion", nt)
+		// a number compared with a string by = / != : the string is converted with number()
+		rn.scalar(d, env, Path{}, bin("=", call("number", v("s")), v("s")), "implicit-conversion", "number = string compares numbers", nt)
+		rn.scalar(d, env, Path{}, bin("!=", v("s"), call("number", v("s"))), "implicit-conversion", "string != number compares numbers", nt)
+		rn.scalar(d, env, Path{}, bin("=", v("s"), num(pick(rn.R, []string{"12", "1", "0", "0.5", "1000", "1.5"}))), "implicit-conversion", "string = number compares numbers", nt)
 		rn.scalar(d, env, Path{}, call("floor", v("s")), "implicit-conversion", "argument conversion", nt)
 		if !strings.ContainsAny(s, "'\"\\") {
 			rn.scalar(d, env, Path{}, call("number", lit(s)), "string-to-number", "string literal -> number", nt)
@@ -374,10 +378,32 @@ func famC07(rn *Runner) {
 	for di := 0; di < rn.Scale(4, 40) && !rn.TooMany(); di++ {
 		d := rn.genDoc(60)
 		env := stdEnv()
-		for _, p := range d.Paths {
+		dot := &EPath{Steps: []*Stp{{Axis: "self", Test: NodeTest{Kind: "node"}, Abbrev: true}}}
+		at := &EPath{Steps: []*Stp{{Axis: "attribute", Test: NodeTest{Kind: "any"}, Abbrev: true}}}
+		kid := &EPath{Steps: []*Stp{{Axis: "child", Test: NodeTest{Kind: "node"}}}}
+		up := &EPath{Steps: []*Stp{{Axis: "parent", Test: NodeTest{Kind: "node"}, Abbrev: true}}}
+		for pi, p := range d.Paths {
 			for _, f := range []string{"string", "string-length", "normalize-space"} {
 				rn.scalar(d, env, p, call(f), "zero-argument-forms", "f() = f(string(.))", true)
 			}
+			// several arguments that all depend on the context node: each is evaluated in the call's own context
+			ctxArgs := []Expr{
+				call("concat", at, lit("|"), dot, lit("|"), call("name"), lit("|"), kid),
+				call("substring-before", dot, kid), call("substring-after", up, dot), call("contains", up, dot),
+				call("starts-with", call("name"), call("local-name")), call("translate", dot, at, call("name")),
+				call("concat", call("string-length"), lit("/"), call("count", kid), lit("/"), call("position"), lit("/"), call("last")),
+				call("substring", dot, call("count", kid), call("string-length", call("name"))),
+			}
+			for k := 0; k < 3; k++ {
+				rn.scalar(d, env, p, ctxArgs[(pi*3+k)%len(ctxArgs)], "context-dependent-arguments", "every argument is evaluated with the call's context node", true)
+			}
+		}
+		// the same inside a path: P/f(a, b) and P[f(a, b)]
+		for i := 0; i < rn.Scale(40, 200) && !rn.TooMany(); i++ {
+			f := pick(rn.R, []Expr{call("concat", at, lit("-"), dot), call("substring-before", dot, at), call("concat", call("name"), kid, at)})
+			fc := f.(*ECall)
+			e := &EPath{Abs: true, Steps: []*Stp{{Axis: "descendant", Test: NodeTest{Kind: "any"}, Preds: []Expr{num(fmt.Sprint(1 + rn.R.Intn(3)))}}, {IsCall: true, Q: fc.Q, Args: fc.Args}}}
+			rn.scalar(d, env, Path{}, e, "context-dependent-arguments", "function-call step with several context-dependent arguments", true)
 		}
 		rn.DropDoc(d)
 	}
